@@ -5,12 +5,29 @@ pool of 4 names + the invalid names '', '1a', 'for', '_x', 'a b', 'a.b' on neste
 and the enumerated rejection-reason x operation matrix.  After EVERY operation the whole model is described
 through the public API.
 (P) whenever the call raised: description before == description after (spaces, bases, cells + formulas +
-    is_derived + inputs, references + values, dir(), getattr kinds; what a DERIVED member shows is C03's
-    business and not compared); after every operation the direct-base relation is acyclic, every space has
-    a C3 linearisation equal to space.bases, every space / cells name satisfies is_valid_name.
+    is_derived + inputs, references + values, dir(), getattr kinds, nodes + edges of the inheritance graph;
+    what a DERIVED member shows is C03's business and not compared);
+    after every ACCEPTED call (and on the new model) the inheritance structure is well-formed, evaluated on the
+    implementation's description alone (nameslib.wf_oracle, independent of the Coq model):
+      W1 for every space S and every B in S.bases: B is a live space and every cells / reference name B holds is
+         held by S as the same kind of member (container and getattr);
+      W2 every member flagged derived is held by some base and DEFINED by some base (nothing derived from nothing);
+      W3 nodes of the space manager's graph == live spaces, edges == (direct base, space) pairs, no self base
+         (this tree does not derive child spaces, so there is no member clause for them);
+      W4 model._impl._check_sanity() / mxsys._check_sanity() pass (AssertionError ignored where two spaces share
+         a bare name: the self-check is wrong there, finding N9 of C12);
+    after every operation the direct-base relation is acyclic, every space has a C3 linearisation equal to
+    space.bases, every space / cells name satisfies is_valid_name.
+    The first failing histories are minimised on the implementation (nameslib.shrink).  When (T) breaks and (P)
+    is silent, nameslib.probe runs follow-up operations around the disagreeing histories through (P).
 (T) Names/Model.v `step` on the same operations gives the same accept / reject (reason class) and the same
     name maps (Names/Tie.v tie_check, evaluated by coqc); util.is_valid_name == Names/Model.v is_valid_name
     on ASCII strings.
+
+Generator: random histories, the rejection-reason x operation matrix, and the scenario "rename around an
+override" (nameslib.Gen.override_history); what every RenameCells was aimed at (override / base / derived /
+lone x free / taken / invalid name x outcome) is counted on the implementation's descriptions and recorded in
+the evidence (distribution).
 
 Known defects of the pinned tree (generator avoids the triggers - decidable predicates on the ideal state and
 the operation, nameslib.Mirror.triggers; witnesses corpus/C11/finding_*.json replayed through (P)):
